@@ -64,9 +64,9 @@ func pathExists(mod, pkg, fn, sel, name string) Site {
 		}}
 }
 
-// chanCap emits the capacity expression of the make(chan ...) call selected by sel (0 if the call
+// parChanCap emits the capacity expression of the make(chan ...) call selected by sel (0 if the call
 // has no capacity argument), as an Int term over the given parameters.
-func chanCap(mod, pkg, fn, sel, name string, ps []Param, vars map[string]string) Site {
+func parChanCap(mod, pkg, fn, sel, name string, ps []Param, vars map[string]string) Site {
 	return Site{Module: mod, Pkg: pkg, Func: fn, Name: name, Kind: Custom, Sel: sel, Params: ps, Vars: vars,
 		Custom: func(c *Ctx, s *Site) (string, error) {
 			fd, err := c.FindFunc(s.Pkg, s.Func)
@@ -202,8 +202,8 @@ func init() {
 		e("MapIterator", "miClampLow", "if[0].cond", "Bool", pI("parallelism"), miVars, nil),
 		e("MapIterator", "miBufClamp", "if[1].cond", "Bool", pI("bufferSize", "parallelism"), miVars, nil),
 		present("MapIterator", "miBufClampAssigns", "if[1].body", "bufferSize = parallelism"),
-		chanCap(mod, pkg, "MapIterator", "assign[in][0]/call[make][0]", "miInCap", pI("bufferSize"), miVars),
-		chanCap(mod, pkg, "MapIterator", "assign[mIter][0]/call[make][0]", "miChCap", pI("bufferSize"), miVars),
+		parChanCap(mod, pkg, "MapIterator", "assign[in][0]/call[make][0]", "miInCap", pI("bufferSize"), miVars),
+		parChanCap(mod, pkg, "MapIterator", "assign[mIter][0]/call[make][0]", "miChCap", pI("bufferSize"), miVars),
 		e("MapIterator", "miSrcEnded", "funclit[1]/if[0].cond", "Bool", []Param{{"ok", "Bool"}}, map[string]string{"ok": "ok"}, nil),
 		e("MapIterator", "miFull", "funclit[1]/for[1].cond", "Bool", pI("inFlight", "bufferSize"), miVars, nil),
 		present("MapIterator", "miWaits", "funclit[1]/for[1].body", "mIter.cond.Wait()"),
@@ -240,9 +240,9 @@ func init() {
 		e("MapStream", "msClampLow", "if[0].cond", "Bool", pI("parallelism"), msVars, nil),
 		e("MapStream", "msBufClamp", "if[1].cond", "Bool", pI("bufferSize", "parallelism"), msVars, nil),
 		present("MapStream", "msBufClampAssigns", "if[1].body", "bufferSize = parallelism"),
-		chanCap(mod, pkg, "MapStream", "assign[in][0]/call[make][0]", "msInCap", pI("bufferSize"), msVars),
-		chanCap(mod, pkg, "MapStream", "assign[ready][0]/call[make][0]", "msReadyCap", pI("bufferSize"), msVars),
-		chanCap(mod, pkg, "MapStream", "assign[c][0]/call[make][0]", "msCCap", pI("bufferSize"), msVars),
+		parChanCap(mod, pkg, "MapStream", "assign[in][0]/call[make][0]", "msInCap", pI("bufferSize"), msVars),
+		parChanCap(mod, pkg, "MapStream", "assign[ready][0]/call[make][0]", "msReadyCap", pI("bufferSize"), msVars),
+		parChanCap(mod, pkg, "MapStream", "assign[c][0]/call[make][0]", "msCCap", pI("bufferSize"), msVars),
 		e("MapStream", "msTokenLoop", "for[0].cond", "Bool", pI("i", "bufferSize"), msVars, nil),
 		present("MapStream", "msTokenLoopSends", "for[0].body", "ready <- struct{}{}"),
 		present("MapStream", "msCancelCtx", "", "ctx, cancel := context.WithCancel(ctx)"),
